@@ -148,6 +148,12 @@ def run_items(items: list[Item], chk: Check, *, witnesses: bool = True, max_step
         cleanup(work)
 
 
+def release(items) -> None:
+    """Drop the halmos states of judged items (thousands of programs would otherwise keep tens of GB of z3 terms alive)."""
+    for it in items:
+        it.hr = None
+
+
 def describe(o: Outcome) -> dict:
     it = o.item
     return {
